@@ -43,8 +43,8 @@ func (c *SCtx) setSCC(b bool) {
 func (c *SCtx) setEXEC(v uint64) { c.EXECo, c.WEXEC = v, true }
 func (c *SCtx) jump(pc uint64)   { c.PCo, c.WPC = pc, true }
 
-func i32(v uint64) int32 { return int32(uint32(v)) }
-func u32(v uint64) uint32 { return uint32(v) }
+func i32(v uint64) int32    { return int32(uint32(v)) }
+func u32(v uint64) uint32   { return uint32(v) }
 func simm(imm uint16) int32 { return int32(int16(imm)) }
 
 func maskN(n uint) uint64 {
@@ -499,7 +499,7 @@ func init() {
 	cmpk("s_cmpk_ge_u32", "12-14", func(d uint64, k uint16) bool { return u32(d) >= uint32(k) })
 	cmpk("s_cmpk_lt_u32", "12-15", func(d uint64, k uint16) bool { return u32(d) < uint32(k) })
 	// 12-15 / 13-7 print "D.u = SCC = (D.u <= SIMM16)" for LE_U32 (a typo, table 5.4
-	// lists it with the other compares): D is left alone, but a write of D is not flagged.
+	// lists it with the other compares): D is left alone.
 	sopk("s_cmpk_le_u32", "12-15", func(c *SCtx) { c.setSCC(u32(c.D0) <= uint32(c.Imm)) })
 	sopk("s_addk_i32", "12-13", func(c *SCtx) {
 		r := int64(i32(c.D0)) + int64(simm(c.Imm))
